@@ -2415,7 +2415,7 @@ class Emitter:
 
         def walk(x):
             if isinstance(x, N):
-                if x.kind == "return" or x.kind == "try":
+                if x.kind == "return" or (x.kind == "try" and not self.try_total(x)):
                     found.append(1)
                 if x.kind == "closure":
                     return
@@ -2704,8 +2704,19 @@ class Emitter:
             r, fuel, fterm, init, r, s2, ind(self.unpack_state(st, s2, env, lambda env4: k("tt", UNIT, env4)), 4),
             v, ind(self.ctl.ret(env, v, UNKNOWN), 4))
 
+    def try_total(self, x):
+        """optional vocabulary key `total_try: callable(em, try node) -> bool`: a `?` whose operand the vocabulary
+        translates to a literal Ok (`(inl ..)`: a write to an infallible sink) never returns; it is then not an exit
+        for the fall-through analysis and e_try continues with the payload (checked there)"""
+        h = self.v.get("total_try")
+        return bool(h is not None and h(self, x))
+
     def e_try(self, e, env, k):
         def k1(t, ty, env1):
+            if ty[0] == "res" and self.try_total(e):
+                if not (t.startswith("(inl ") and t.endswith(")")):
+                    raise EmitError("total_try: the operand of `?` is not a literal Ok (%s)" % t)
+                return k(t[5:-1], ty[1], env1)
             if ty[0] == "res":
                 if self.pure_mode:
                     raise NeedsBind()
